@@ -7,10 +7,11 @@ EXTENDS Gossip, IOUtils, TLCExt
 
 Rec == ndJsonDeserialize(IOEnv.TRACE)
 
-VARIABLE l
-ovars == <<vars, hist, l>>
+VARIABLES l,
+          snap   \* global state at the start of the handshake in progress (events flagged hs)
+ovars == <<vars, hist, l, snap>>
 
-ObsInit == Init /\ l = 1
+ObsInit == Init /\ l = 1 /\ snap = st
 
 HasF(e, f) == f \in DOMAIN e
 
@@ -46,8 +47,9 @@ ObsNext ==
      IF e.a = "Reset" THEN
         /\ st' = [n \in Node |-> InitNode(n)] /\ net' = {} /\ clock' = 0
         /\ ledger' = [n \in Node |-> <<>>] /\ mid' = [n \in Node |-> FALSE]
-        /\ panic' = FALSE /\ hist' = <<>>
+        /\ panic' = FALSE /\ hist' = <<>> /\ snap' = [n \in Node |-> InitNode(n)]
      ELSE
+        /\ snap' = IF HasF(e, "hs") /\ e.hs.k = 1 THEN st ELSE snap
         /\ hist' = <<l, e>>
         /\ clock' = e.clock
         /\ st' = IF HasF(e, "post") THEN [st EXCEPT ![e.n] = FromPost(st[e.n], e, e.n)] ELSE st
@@ -64,8 +66,22 @@ ObsNext ==
                   ELSE ledger
              ELSE ledger
 
+\* C01 progress on a real complete handshake a -> b (events flagged hs.k = 1..4): if either side held
+\* newer deliverable data at its start, some copy at a or b strictly advanced (or KF-2's shape applies)
+C01_ProgressObs ==
+  [][ (l <= Len(Rec) /\ HasF(Rec[l], "hs") /\ Rec[l].hs.k = 4) =>
+        LET a == Rec[l].hs.a  b == Rec[l].hs.b  now == Rec[l].clock IN
+        (Deliverable(snap, a, b, now) \/ Deliverable(snap, b, a, now)) =>
+           (Advanced(snap, st', a) \/ Advanced(snap, st', b) \/ Hogged(snap, a, b, now) \/ Hogged(snap, b, a, now)) ]_ovars
+
+C01_ProgressObsStrict ==
+  [][ (l <= Len(Rec) /\ HasF(Rec[l], "hs") /\ Rec[l].hs.k = 4) =>
+        LET a == Rec[l].hs.a  b == Rec[l].hs.b  now == Rec[l].clock IN
+        (Deliverable(snap, a, b, now) \/ Deliverable(snap, b, a, now)) =>
+           (Advanced(snap, st', a) \/ Advanced(snap, st', b)) ]_ovars
+
 ObsSpec == ObsInit /\ [][ObsNext]_ovars
-ObsView == <<vars, l>>
+ObsView == <<vars, l, snap>>
 
 ObsDone ==
   LET d == TLCGet("stats").diameter IN
